@@ -139,7 +139,8 @@ def eval_geom(g, surf_side, cell_in):
 
 def generate(rng, ncells=None, features=None):
     """features: optional set restricting what may appear, from
-    {"transforms","periodic","boundary","universes","lattice","complements","thermal","data_placement","shortcuts","message","trcl"}"""
+    {"transforms","periodic","boundary","universes","lattice","complements","thermal","data_placement","shortcuts","message","trcl"}
+    ("lattice" and "trcl" are not in the default set)"""
     F = features if features is not None else {
         "transforms", "periodic", "boundary", "universes", "complements", "thermal", "data_placement", "shortcuts", "message",
     }
@@ -222,6 +223,11 @@ def generate(rng, ncells=None, features=None):
                 c["fill"] = rng.choice(used)
                 if tr_numbers and rng.random() < 0.3:
                     c["fill_tr"] = rng.choice(tr_numbers)
+    if "lattice" in F:
+        # lattice cells have FILL (well-formedness); hexahedral geometry is MCNP's business, not the reader's
+        for c in cells:
+            if c["fill"] is not None and rng.random() < 0.6:
+                c["lat"] = rng.choice([1, 1, 2])
     if "trcl" in F and tr_numbers:
         for c in cells:
             if rng.random() < 0.15:
@@ -304,6 +310,8 @@ def cards(gp, rng, redundant=0.15, shortcuts=True):
             params.append(("vol", [spell(rng, c["vol"], False)]))
         if place["u"] == "cell" and c["u"] is not None:
             params.append(("u", [str(c["u"])]))
+        if place["lat"] == "cell" and c.get("lat") is not None:
+            params.append(("lat", [str(c["lat"])]))
         if place["fill"] == "cell" and c["fill"] is not None:
             v = [str(c["fill"])]
             if c["fill_tr"] is not None:
@@ -341,6 +349,8 @@ def cards(gp, rng, redundant=0.15, shortcuts=True):
         d.append({"words": ["vol"] + _compress(rng, [c["vol"] for c in cs], shortcuts), "params": [], "dollar": None})
     if place["u"] == "data" and any(c["u"] is not None for c in cs):
         d.append({"words": ["u"] + _compress(rng, [c["u"] for c in cs], shortcuts), "params": [], "dollar": None})
+    if place["lat"] == "data" and any(c.get("lat") is not None for c in cs):
+        d.append({"words": ["lat"] + _compress(rng, [c.get("lat") for c in cs], shortcuts), "params": [], "dollar": None})
     if place["fill"] == "data" and any(c["fill"] is not None for c in cs):
         d.append({"words": ["fill"] + _compress(rng, [c["fill"] for c in cs], shortcuts), "params": [], "dollar": None})
     for name, entries in gp["extra_data"]:
